@@ -68,6 +68,9 @@ type Step struct {
 	Rm     bool        `json:"rm,omitempty"`
 	NoArgs bool        `json:"no_args,omitempty"`
 	Fault  *simos.Rule `json:"fault,omitempty"`
+	// Fault2: a second rule active in the same process (whatever moq falls back
+	// to after the first failure meets a failure of its own)
+	Fault2 *simos.Rule `json:"fault2,omitempty"`
 	Damage string      `json:"damage,omitempty"`
 	BadIdx int         `json:"bad_idx,omitempty"`
 	Bad    string      `json:"bad,omitempty"` // "", unknown, notiface, badalias
@@ -109,6 +112,9 @@ func (s Step) String() string {
 		if s.Fault != nil {
 			p = append(p, fmt.Sprintf("!fault{%s#%d %s %s %s %d‰}", s.Fault.Prim, s.Fault.Nth, s.Fault.Path, s.Fault.Action, s.Fault.Errno, s.Fault.Frac))
 		}
+		if s.Fault2 != nil {
+			p = append(p, fmt.Sprintf("!then{%s#%d %s %s %d‰}", s.Fault2.Prim, s.Fault2.Nth, s.Fault2.Action, s.Fault2.Errno, s.Fault2.Frac))
+		}
 		return strings.Join(p, " ")
 	case StepDamage:
 		return "damage(" + s.Damage + ")"
@@ -134,7 +140,7 @@ func (sc *Scenario) String() string {
 }
 
 // Damage kinds.
-var damages = []string{"truncate", "garbage", "empty", "otherpkg", "selfdecl", "aliases", "readonly", "readonly"}
+var damages = []string{"truncate", "garbage", "empty", "otherpkg", "selfdecl", "aliases", "readonly", "readonly", "header", "header", "conflict"}
 
 // Profile tunes scenario generation per property.
 type Profile struct {
@@ -168,6 +174,19 @@ func GenScenario(tp *tape.Tape, seed uint64, pf Profile) *Scenario {
 	sc.FromRoot = side.Chance(250, 1000)
 	inPlace := sc.Place.Pkg == "" && sc.Place.Symlink == "" && sc.Place.Writable
 	sc.MainPkg = inPlace && !sc.IncompleteMod && side.Chance(200, 1000)
+	// a fallback after a failed non-write primitive may fail in turn: a second
+	// rule on the writes (or, after a failed open, on whatever is opened next)
+	for i := range sc.Steps {
+		st := &sc.Steps[i]
+		if st.Kind != StepRun || st.Fault == nil || st.Fault.Action != "error" || st.Fault.Prim == "write" || st.Stdout || !side.Chance(350, 1000) {
+			continue
+		}
+		f2 := &simos.Rule{Prim: "write", Action: []string{"short", "error", "short"}[side.Int(3)], Errno: errnosFor["write"][side.Int(3)], Frac: []int{1, 500, 999}[side.Int(3)]}
+		if f2.Action == "error" {
+			f2.Frac = 0
+		}
+		st.Fault2 = f2
+	}
 	return sc
 }
 
